@@ -283,11 +283,36 @@ def s1(ctx, taint, off):
                 # a tainted *parameter* condition may be guarded by every caller
                 if guarded_by_callers(ctx, f, a, cond, tp, taint):
                     ctx.ok('S1', key, 'assertion on untrusted data is guarded at every call site that passes untrusted data', f, line=line)
+                elif restates_postcondition(a, nid, cond, tp):
+                    ctx.note('S1', key, 'the assertion restates, in terms of the object\'s own members, a postcondition of the member function called just before with '
+                             'these very values (%s): it is the callee that establishes it, not input validation; not proven here' % restates_postcondition(a, nid, cond, tp), f, line=line)
                 elif (f['q'], 'dims') in S1_EXCEPTIONS and T.contains(cond, lambda nn: nn[0] == 'mc' and nn[1].endswith('::size')):
                     ctx.note('S1', key, 'not discharged mechanically; triaged by reading: ' + S1_EXCEPTIONS[(f['q'], 'dims')], f, line=line)
                 else:
                     ctx.bad('S1', key, 'assert(%s) is reachable with untrusted data and only the assertion guards it (abort, or out-of-bounds with NDEBUG)' % T.show(cond, 4), f, line=line)
     ctx.info['S1_tainted_asserts'] = n
+
+
+def restates_postcondition(a, nid, cond, tp):
+    """name of a non-const member function of this object called at a dominator of the assertion
+    whose arguments are exactly the untrusted values the asserted relation mentions, every other leaf
+    being a member of this object: assert(r.size() == k) after resize(k, w)"""
+    T = a.T
+    n = T.node(cond)
+    if n[0] != 'rel':
+        return None
+    doms = set(a.dominators_of(nid, 100000))
+    for n2, ev in a.all_events('selfcall'):
+        if n2 not in doms or n2 == nid:
+            continue
+        args = set(ev[2])
+        sides = (n[2], n[3])
+        arg_side = [x for x in sides if x in args]
+        mem_side = [x for x in sides if x not in args]
+        if len(arg_side) == 1 and len(mem_side) == 1 and not is_tainted(a, mem_side[0], tp) and \
+                T.contains(mem_side[0], lambda z: z[0] == 'this') and not T.contains(mem_side[0], lambda z: z[0] in ('param', 'wire')):
+            return ev[1].split('::')[-1]
+    return None
 
 
 def implied(a, cond, st):
@@ -563,11 +588,22 @@ def upper_bounded(a, st, t):
     v = ub(a, t)
     if v is not None:
         return v
-    cons = bounds.constraints(a, st)
-    cons = cons + bounds.atom_constraints(a, bounds.atoms_of(cons + [bounds.upoly(a, t)]))
     from fractions import Fraction
+    P = bounds.upoly(a, t)
+
+    def held(m, c):
+        # a small multiple of the size of a container that exists already: memory of that order is
+        # held anyway (v.reserve(v.size() + n)); only the rest of the sum needs a bound
+        if len(m) != 1 or not (0 < c <= 16):
+            return False
+        n_ = T.node(m[0])
+        return n_[0] == 'mc' and isinstance(n_[1], str) and n_[1].split('::')[-1] in ('size', 'length', 'capacity')
+    if len(P) > 1:
+        P = {m: c for m, c in P.items() if not held(m, c)}
+    cons = bounds.constraints(a, st)
+    cons = cons + bounds.atom_constraints(a, bounds.atoms_of(cons + [P]))
     for cap in (1 << 12, 1 << 16, 1 << 24, 1 << 28, 1 << 31):
-        if bounds.prove_ge0(bounds.sub({(): Fraction(cap)}, bounds.upoly(a, t)), cons):
+        if bounds.prove_ge0(bounds.sub({(): Fraction(cap)}, P), cons):
             return cap
     return None
 
@@ -780,10 +816,12 @@ def s9(ctx):
                         continue
                     seen.add((x.id, v))
                     if x.id in lwrites:
+                        # a zero written here repairs the pair only as long as the length is not set
+                        # again before the pointer is re-allocated: keep walking with the new value
                         v = lwrites[x.id]
-                        if T.is_int(v, 0):
-                            continue
                     if x.kind == 'exit':
+                        if v is not None and T.is_int(v, 0):
+                            continue
                         leak = x
                         break
                     for i, y in enumerate(x.succ):
